@@ -30,16 +30,16 @@ def evaluate(lines):
                 bad.append("UInt64ToString called from 8 goroutines at once: " + l)
         elif f[0] == "W":
             if "HUNG" in l or "held=true" not in l or "relock=ok" not in l:
-                bad.append("WaitTimeout (lock not held / not released / hung): " + l)
+                bad.append("WaitTimeout (lock not held / not released / hung): " + l + (" [gross]" if "HUNG" in l or "held=false" in l else ""))
                 continue
             el = int(re.search(r"elapsed_us=(\d+)", l).group(1))
             t_us = int(f[2]) * 1000
             if f[1] in ("timeout", "stale-helper", "two-waiters", "two-timeouts"):
                 if not (t_us - 2000 <= el <= t_us + SLACK_US):
-                    bad.append("WaitTimeout (returned outside [timeout, timeout+slack]): " + l)
+                    bad.append("WaitTimeout (returned outside [timeout, timeout+slack]): " + l + (" [gross]" if el > t_us + 1000000 or el < t_us - 2000 else ""))
             else:  # signalled after 5 ms (or by a signaller already contending for the lock), timeout much later: must return promptly
                 if not (el <= 5000 + SLACK_US):
-                    bad.append("WaitTimeout (did not return promptly after the signal): " + l)
+                    bad.append("WaitTimeout (did not return promptly after the signal): " + l + (" [gross]" if el > 1000000 else ""))
     return bad
 
 
@@ -65,10 +65,11 @@ def run(ctx):
     # wall-clock bounds: a machine that is busy can delay one wake-up by more than the slack; a
     # scenario counts only if it misses its bound in three runs out of three
     def timing(b):
-        return b.startswith("WaitTimeout (")
+        # more than a second late (or hung, or the lock not held) is not scheduling noise
+        return b.startswith("WaitTimeout (") and not b.endswith("[gross]")
     def key(b):
         f = b.split(": ", 1)[1].split()
-        return (f[1], f[2])
+        return (f[1].split("-")[0], f[2])   # contending-signal / contending-broadcast are one scenario family
     retried = 0
     while bad and any(timing(b) for b in bad) and retried < 2:
         retried += 1
@@ -82,7 +83,7 @@ def run(ctx):
         "distinct_nontrivial": int(st.get("cases", 0)) + len(other) - 2,
         "rule": "UInt64ToString: 0, 10^k-1, 10^k, 10^k+1 (k<=19), 2^63±1, 2^64-1, random full-width and random shifted values, compared with the extracted model "
                 "(non-trivial = every value except 0 and 1). MapClear: maps of 0..1000 entries with uint64, string and float64 keys (0-2 NaN keys), cleared then re-used. "
-                "Assume/Assert: both arguments. WaitTimeout: timeouts 0,1,10,50 ms unsignalled; Signal/Broadcast after 5 ms with timeouts 200/1000 ms; a signaller already spinning on the lock when the wait begins (12 rounds each of Signal and Broadcast, timeout 1500 ms); a second goroutine already queued on the same cond (plain Wait, or WaitTimeout with a much longer timeout) with timeouts 0,10,50 ms; "
+                "Assume/Assert: both arguments. WaitTimeout: timeouts 0,1,10,50 ms unsignalled; Signal/Broadcast after 5 ms with timeouts 200/1000 ms; a signaller already spinning on the lock when the wait begins (40 rounds each of Signal and Broadcast, timeout 1500 ms); a second goroutine already queued on the same cond (plain Wait, or WaitTimeout with a much longer timeout) with timeouts 0,10,50 ms; "
                 "a timed-out wait followed by a late broadcast and a second wait (stale helper); lock probed with TryLock, then re-lockability within 500 ms.",
         "samples": (lines or [])[:3] + other[:2] + other[-4:],
         "tostring_cases": int(st.get("cases", 0)), "tostring_length_distribution": st.get("lengths", ""),
